@@ -34,6 +34,8 @@ def run(ctx) -> None:
     from sa.report import run_prerequisite
     run_prerequisite(ctx, "C03", ("R1", "R2", "R3", "R4", "R5", "R6"), "R5")
     run_prerequisite(ctx, "C09", ("R1",), "R6")
+    ctx.rule("R8", "prerequisite: the next legitimate update is not refused - 'greater' between two versions of a non-PEP 440 pattern is pkg_resources' order (C16/R9)")
+    run_prerequisite(ctx, "C16", ("R9",), "R8")
     # "... which is strictly greater than the previous one, so a further update is always possible": the gate (C01) and the
     # round trip of what was rendered (C02) are what makes the next update start from a readable, smaller version
     ctx.rule("R7", "prerequisite: the announced version passed the gate (C01/R1-R3) and reads back under its own pattern (C02/R2-R5)")
